@@ -84,9 +84,14 @@ def versionTuple (ver : PyVal) : Except Err (Nat × Nat) := do
   validate2 "common.Header" [(c!"version", ver)]
   match ver with
   | .str s =>
-    match (Str.splitOn '.' (strip s)).map parseDigits with
-    | [some a, some b] => .ok (a, b)
-    | _ => .error .other
+    -- `split_version` decides "not a number" with the ASCII class `^[^0-9].*`, while the validator's `\d` is Unicode-aware: a version
+    -- that starts with a non-ASCII digit comes back as `[version]`, and the tuple comparison `("…",) >= (1, 1)` raises TypeError
+    match s with
+    | c :: _ => if !Str.isAsciiDigit c then .error .typeError else
+        match (Str.splitOn '.' (strip s)).map parseDigits with
+        | [some a, some b] => .ok (a, b)
+        | _ => .error .other
+    | [] => .error .other
   | _ => .error .typeError
 
 /-- `Header.deserialize` of the JSON formats, without its final `validate()`; → (header attributes, version tuple) -/
